@@ -128,6 +128,35 @@ def _td_case(ctx, mode, required_present, dep_subset, repl_set):
 
     once = td.as_dict()
 
+    # differential: the same description written with the current attribute
+    # names must verify to the same result (derived defaults such as use_mpi
+    # included)
+    d_cur = {'mode': mode}
+    if req and required_present:
+        d_cur[req] = 'x'
+    if repl_set:
+        d_cur.update(REPLACEMENT_SET)
+    for name, repl, val, conv in DEPRECATED:
+        if repl and name in dep_subset:
+            d_cur[repl] = conv(val)
+    td_cur = rp.TaskDescription(copy.deepcopy(d_cur))
+    try:
+        td_cur.verify()
+        cur = td_cur.as_dict()
+        dep_names = set(x[0] for x in DEPRECATED)
+        diff = sorted(k for k in cur if k not in dep_names
+                                     and cur[k] != once.get(k))
+        if diff:
+            ctx.violation('alias-differs-from-current-name|'
+                          'TaskDescription._verify|%s' % '+'.join(diff),
+                          '%s: deprecated spelling gives %s, current spelling '
+                          'gives %s' % (trig, {k: once.get(k) for k in diff},
+                                        {k: cur[k] for k in diff}), replay)
+    except Exception as e:
+        ctx.violation('alias-differs-from-current-name|TaskDescription._verify|'
+                      'raises', '%s: current spelling raised %r' % (trig, e),
+                      replay)
+
     # idempotence
     try:
         td.verify()
